@@ -6,3 +6,8 @@ pub fn gen(_rng: &mut Rng, _n: usize, _thorough: bool, _emit: &mut dyn FnMut(Str
 pub fn exec(_fields: &[&str]) -> String {
     "unimplemented".to_owned()
 }
+
+/// child-process entry point (`verif-harness child c01 …`), for checks that need process-global state
+pub fn child(_args: &[String]) -> i32 {
+    2
+}
